@@ -25,8 +25,8 @@ ID = "C14"
 LEAN_MODULES = ["MpfVerif.Props.C14"]
 PROPS_FILE = "MpfVerif/Props/C14.lean"
 MANIFEST = {
-  "text": "Proof on byte-level Lean models of the three incremental serial decoders and the FAST command writer: (1) for every byte-at-a-time decoder feed(a++b) = feed(feed a) b, hence frames and carried buffer of the FAST ('\\r') and PKONE ('E') decoders are independent of how the bytes were split into reads, and after any noise one delimiter restores exact in-order delivery; (2) a transcription of OPP's _parse_msg (part_msg, _lost_synch, the strlen>2 threshold, 7/11-byte frames, EOM) always terminates and, on every chunking, emits exactly the frames of a byte-at-a-time automaton on the concatenated bytes, its carried state being equal after normalisation (the raw carried pair does depend on the chunking); (3) the CRC-8 table regenerated from opp_rs232_intf.py on every run is a permutation (kernel-checked per entry) and therefore every single-byte error in data or CRC byte of a frame is detected; a frame with a wrong CRC changes no card state and produces no switch event; after any frame the reported switch states mirror old_state and a valid frame sets it to its payload; a FAST switch report sets exactly that switch; (4) the writer keeps queue order at every point of every run. Flow control is a known finding (the writer never pauses): proved only for disciplined senders, with a witness. The models are tied to the real communicators by a correspondence run (generated streams, chunkings down to single bytes, corruptions, malformed frames, writer schedules) on every check.",
-  "note": "Trusted: Lean kernel + {propext, Classical.choice, Quot.sound}; the hand-written models in Model/Framing.lean (validated only by differential runs); the generator that extracts CRC8_LOOKUP; asyncio Queue/Event semantics for the writer. Known findings: the FAST writer does not pause for confirmations (D7); a frame that is not UTF-8 makes the FAST and the PKONE reader raise. Not modelled: config-phase FAST responses (ID/NN/DL/SL/CH), update_switches_from_hw_data over configured switches, PKONE payload parsing and its in-flight counter, the retry loop of send_and_wait_for_response_processed.",
+  "text": "Proof on byte-level Lean models of the three incremental serial decoders and the FAST command writer: (1) for every byte-at-a-time decoder feed(a++b) = feed(feed a) b, hence frames and carried buffer of the FAST ('\\r') and PKONE ('E') decoders are independent of how the bytes were split into reads, and after any noise one delimiter restores exact in-order delivery; (2) a transcription of OPP's _parse_msg (part_msg, _lost_synch, the strlen>2 threshold, 7/11-byte frames, EOM) always terminates and, on every chunking, emits exactly the frames of a byte-at-a-time automaton on the concatenated bytes, its carried state being equal after normalisation (the raw carried pair does depend on the chunking); (3) the CRC-8 table regenerated from opp_rs232_intf.py on every run is a permutation (kernel-checked per entry) and therefore every single-byte error in data or CRC byte of a frame is detected; a frame with a wrong CRC changes no card state and produces no switch event; after any frame the reported switch states mirror old_state and a valid frame sets it to its payload; a FAST switch report sets exactly that switch; (4) after any garbage plus 11 idle bytes the OPP automaton decodes every following well-formed frame; (5) the writer keeps queue order at every point of every run. Flow control is a known finding (the writer never pauses; a lost response is never retried): proved only for disciplined senders resp. for responses that arrive, with witnesses. The models are tied to the real communicators by a correspondence run (generated streams, chunkings down to single bytes, corruptions, malformed frames, writer schedules) on every check.",
+  "note": "Trusted: Lean kernel + {propext, Classical.choice, Quot.sound}; the hand-written models in Model/Framing.lean (validated only by differential runs); the generator that extracts CRC8_LOOKUP; asyncio Queue/Event semantics for the writer. Known findings: the FAST writer does not pause for confirmations and never retries a lost response (D7); a frame that is not UTF-8 makes the FAST and the PKONE reader raise. Not modelled: config-phase FAST responses (ID/NN/DL/SL/CH), update_switches_from_hw_data over configured switches, PKONE payload parsing and its in-flight counter, ignore_decode_errors=True (connect phase).",
   "technique": "Lean 4 theorems (induction over byte lists, simulation between loop transcription and automaton, decide +kernel over the regenerated CRC table) + differential correspondence with the real parsers and writer task",
   "translated": True,
  }
